@@ -47,7 +47,7 @@ def sync_worker(analysis: Analysis, ext: str) -> dict:
         armed = [e for e in timers if len(e.recv.args) > 1 and isinstance(e.recv.args[1], FuncV) and e.recv.args[1].info.qual == closure.info.qual]
         pub = [e for e in s.events if e.kind == "store" and e.name == "_cancel_save"]
         pub_ok = any(isinstance(e.args[0], ExtV) and e.args[0].name == "threading.Timer.cancel" and armed and e.args[0].recv is not None and e.args[0].recv.key() == armed[-1].recv.key() for e in pub)
-        failed = [e for e in s.events if e.kind == "catch" and e.func == closure.info.qual]
+        failed = [e for e in s.events if e.kind == "catch" and e.func.startswith(fac.qual + ".")]
         save_i = [i for i, e in enumerate(s.events) if e.kind == "enter" and e.name == "persistence:Persistence.save_sensors"]
         arm_i = [i for i, e in enumerate(s.events) if e in armed]
         interval = armed[-1].recv.args[0].value if armed and isinstance(armed[-1].recv.args[0], Const) else None
@@ -80,8 +80,9 @@ def async_worker(analysis: Analysis, ext: str) -> dict:
     for out in outs2:
         kind, s, v = out
         seq = []
+        prefix = fac.qual + "."
         for e in s.events:
-            if e.func != loop_fn.info.qual and not (e.kind == "enter" and e.name == "persistence:Persistence.save_sensors"):
+            if not e.func.startswith(prefix) and not (e.kind == "enter" and e.name == "persistence:Persistence.save_sensors"):
                 continue
             if e.kind == "enter" and e.name == "persistence:Persistence.save_sensors":
                 seq.append("save")
